@@ -7,6 +7,7 @@ caller's model; the configuration is replayed on the real class.
 the stub model, and z3 proves on every path that they are unchanged."""
 from __future__ import annotations
 
+import copy
 import inspect
 import os
 import time
@@ -17,7 +18,7 @@ from harness import common
 from harness import models
 from harness import poollib as pl
 from harness.common import Harness
-from symx import arrays, core
+from symx import arrays, core, facade
 
 PID = "C05"
 
@@ -34,6 +35,9 @@ DICT_CANDIDATES_ALT = {"metric_dict": {}, "cluster_algo_dict": {}, "nearest_neig
 
 OTHER_CANDIDATES = [{"__ndarray__": [1.0, 0.4, 0.7, 0.2]}, {"__ndarray__": [[1.0], [0.4], [0.7], [0.2]]},
                     {"__ndarray__": [3, 1, 2], "dtype": "int64"}, [1.0, 0.4, 0.7, 0.2]]
+
+
+SCALAR_CANDIDATES = [64, 3, 0.75, -1, 0]
 
 
 def paramflow_pass(tier, known, modules=("skactiveml.pool", "skactiveml.pool.multiannotator"), method="query",
@@ -53,7 +57,7 @@ def paramflow_pass(tier, known, modules=("skactiveml.pool", "skactiveml.pool.mul
             K = getattr(mod, name, None)
             if not inspect.isclass(K) or not hasattr(K, method):
                 continue
-            it = Interp(K, method, max_paths=4000 if tier == "quick" else 20000).run()
+            it = Interp(K, method, max_paths=6000 if tier == "quick" else 20000).run()
             evs = it.feasible_events()
             res["states"] += it.paths
             res["transitions"] += it.queries
@@ -137,6 +141,35 @@ def paramflow_pass(tier, known, modules=("skactiveml.pool", "skactiveml.pool.mul
                                 cfg = cfg2
                                 break
                         if hit:
+                            break
+                if not hit and e["kind"] == "param_write" and admits_other(it, e, e["what"]):
+                    # a write such as  self.p = min(self.p, n)  leaves get_params() unchanged for the fixture's value:
+                    # search a witness among generic scalars (large / small / negative / fractional)
+                    # ... and a degenerate call: a single candidate (the first sample the fixture leaves unlabeled)
+                    one = {}
+                    try:
+                        y0 = np.asarray((entry["calls"] or [{}])[0].get("y"), dtype=float)
+                        unl = np.flatnonzero(np.isnan(y0 if y0.ndim == 1 else y0.sum(axis=1)))
+                        if len(unl):
+                            one = {"candidates": {"v": [int(unl[0])]}}
+                    except (TypeError, ValueError):
+                        pass
+                    for cand, args_alt in [(None, one)] + [(c_, {}) for c_ in SCALAR_CANDIDATES]:
+                        cfg2 = dict(cfg)
+                        if cand is not None:
+                            cfg2[e["what"]] = {"v": cand}
+                        elif not one:
+                            continue
+                        else:
+                            cfg2.pop(e["what"], None)      # the fixture's own value of the parameter
+                        try:
+                            f2 = R.replay_query_side_effects(K, entry, cfg2, dict_candidates=DICT_CANDIDATES, args_config=args_alt)
+                        except Exception:
+                            continue
+                        res["validated"] += 1
+                        hit = [f for f in f2 if f[0] in wants and e["what"] in f[1]]
+                        if hit:
+                            cfg = cfg2
                             break
                 desc = dict(cls=name, kind=e["kind"], what=e["what"], where=f"{e['where']}:{e['line']}", config=cfg)
                 if hit:
@@ -229,12 +262,15 @@ def _same(a, b):
     return core.b_and(*conds)
 
 
-def sym_snap(c, strat, n, mode, b):
+def sym_snap(c, strat, n, mode, b, rs="int"):
     a = pl.ADAPTERS[strat]
     s = pl.gen_scenario(c, n, mode, b, independent=a.independent, min_unlabeled=a.min_unlabeled)
     X0, y0 = s.X.copy(), s.y.copy()
     c0 = s.cand.copy() if isinstance(s.cand, arrays.SymNd) else (list(s.cand) if s.cand is not None else None)
-    qs = a.make(s.seed, sym=True)
+    # rs="instance": the caller's generator object is a constructor parameter like any other - query must not draw from it
+    inst = facade.SymRandomState(s.seed) if rs == "instance" else None
+    inst0 = copy.deepcopy(inst)
+    qs = a.make(inst if inst is not None else s.seed, sym=True)
     p0 = {k: v for k, v in qs.get_params(deep=False).items()}
     holder = {}
     del models.CREATED[:]
@@ -256,16 +292,20 @@ def sym_snap(c, strat, n, mode, b):
     p1 = qs.get_params(deep=False)
     c.prove(all(p1[k] is p0[k] or p1[k] == p0[k] for k in p0), "get_params_unchanged",
             info=dict(changed=[k for k in p0 if not (p1[k] is p0[k])]))
+    if inst is not None:
+        c.prove(inst.same_state(inst0), "random_state_parameter_not_consumed")
     c.witness(True, "ran")
 
 
-def replay_snap(inputs, label, strat, n, mode, b):
+def replay_snap(inputs, label, strat, n, mode, b, rs="int"):
     a = pl.ADAPTERS[strat]
     s = pl.real_scenario(inputs, n, mode)
     X0, y0 = s.X.copy(), s.y.copy()
     c0 = s.cand.copy() if isinstance(s.cand, np.ndarray) else (list(s.cand) if s.cand is not None else None)
     for seed in [s.seed, 0, 1]:
-        qs = a.make(seed, sym=False, inputs=inputs)
+        inst = np.random.RandomState(seed) if rs == "instance" else None
+        st0 = inst.get_state() if inst is not None else None
+        qs = a.make(inst if inst is not None else seed, sym=False, inputs=inputs)
         p0 = dict(qs.get_params(deep=False))
         del models.CREATED[:]
         a.call(qs, s, b, False, table=inputs.get("__clf__"))
@@ -281,6 +321,10 @@ def replay_snap(inputs, label, strat, n, mode, b):
         p1 = qs.get_params(deep=False)
         if any(not (p1[k] is p0[k] or p1[k] == p0[k]) for k in p0):
             bad.add("get_params_unchanged")
+        if inst is not None:
+            st1 = inst.get_state()
+            if not (np.array_equal(st0[1], st1[1]) and st0[2:] == st1[2:]):
+                bad.add("random_state_parameter_not_consumed")
         if label in bad:
             return True, f"{strat}.query modified its inputs/parameters: {label}"
     return False, "not reproduced"
@@ -296,6 +340,7 @@ def _cfg_for(name):
             if getattr(a, "slow", False) and mode == "rows":
                 continue
             out.append(dict(strat=name, n=getattr(a, "n", None) or 3, mode=mode, b=2))
+        out.append(dict(strat=name, n=getattr(a, "n", None) or 3, mode="none", b=2, rs="instance"))
         return out
     return cfg
 
